@@ -18,7 +18,9 @@ CONSTANTS MaxRanges,   \* listings of 1..MaxRanges ranges
           Starts,      \* set of range starts (naturals; the query lattice is finer, see Rs)
           MaxQueries   \* number of successive queries on one object
 
-\* query points: below, at, between and above the starts.  Starts are even numbers, odd numbers lie between.
+\* query points: below, at, between and above the starts.  Starts are even numbers; an odd number stands for EVERY
+\* separation strictly between two neighbouring lattice starts (the replay takes the midpoint, the floating point
+\* neighbours of both ends and ends moved by 1e-12 / a relative 1e-10 as its representatives).
 Rs == (Min(Starts) - 1)..(Max(Starts) + 1)
 
 VARIABLES listing,  \* the ranges as listed by the user (never changes)
